@@ -360,6 +360,7 @@ class Oscar(BaseStorer):
         format_oscar2013_extended: str = (
             "%g %g %g %g %g %.9g %.9g %.9g %.9g %d %d %d %d %g %g %d %d %g %d %d"
         )
+        format_extended_20_columns: str = format_oscar2013_extended
         format_map: Dict[str, str] = {
             "t": "%g",
             "x": "%g",
@@ -433,16 +434,12 @@ class Oscar(BaseStorer):
                     if len(particle_output) == 0:
                         f_out.write(self.event_end_lines_[event])
                         continue
-                    elif (
-                        i == 0
-                        and len(particle_output[0]) > 20
-                        and (
-                            self.oscar_format_ == "Oscar2013Extended"
-                            or self.oscar_format_ == "Oscar2013Extended_IC"
-                        )
+                    elif len(particle_output[0]) > 20 and (
+                        self.oscar_format_ == "Oscar2013Extended"
+                        or self.oscar_format_ == "Oscar2013Extended_IC"
                     ):
                         format_oscar2013_extended = (
-                            format_oscar2013_extended
+                            format_extended_20_columns
                             + (len(particle_output[0]) - 20) * " %d"
                         )
                     if self.oscar_format_ == "Oscar2013":
